@@ -106,6 +106,7 @@ func encodeValueCtx1(v reflect.Value, c *encCtx) (string, string) {
 		}
 		f := v.Float()
 		own := strconv.FormatFloat(f, 'f', -1, bits)
+		c.record("f"+strconv.Itoa(bits)+":"+own+";", v) // %v of a float differs from ToStr's 'f' format (map keys)
 		return N("float", I(int64(bits)), U(math.Float64bits(f)),
 			X(strconv.FormatFloat(f, 'f', -1, 64)), X(own)), "f" + strconv.Itoa(bits) + ":" + own + ";"
 	case reflect.Ptr:
